@@ -215,7 +215,7 @@ def evaluate(case):
 
 
 def shards(tier, seed):
-    n = 1500 if tier == "thorough" else 160
+    n = 4000 if tier == "thorough" else 400
     return [{"seed": seed, "lo": i * n, "hi": (i + 1) * n} for i in range(16)]
 
 
